@@ -1,4 +1,4 @@
-HOOK_COMMITS = ["2b595be", "f7394ca"]
+HOOK_COMMITS = ['2b595be', 'f7394ca']
 NOT_APPLICABLE = {}
 META = {
  "C19": {
@@ -8,79 +8,79 @@ META = {
   "technique": "runtime monitoring: reference-filter oracle over real retrieve_txs executions on generated logs/queries",
  },
  "C01": {
-  "text": "Runtime monitoring of the real selection and initiation code: an invariant oracle (independent spendability predicate, exact u128 conservation, minimum fee, unique change paths, no panic, bounded steps, nothing persisted on refusal) evaluated on every execution of an exhaustive small scope plus several 10^5 sampled wallets/parameter draws (hook H1, in-memory backend) and on API-level sends, estimates, late-locked sends and invoice payments against a real LMDB wallet and chain.",
+  "text": "Runtime monitoring of the real selection and initiation code: an invariant oracle (independent spendability predicate, exact u128 conservation, minimum fee, unique change paths, no panic, bounded steps, nothing persisted on refusal) evaluated on every execution of an exhaustive small scope plus several 10^5 sampled wallets/parameter draws (hook H1, in-memory backend) and on API-level sends, estimates, late-locked sends and invoice payments against a real LMDB wallet and chain. Source accounts other than the active one (src_acct_name) and, for late-locked sends, an intervening send that reserves coins between initiation and finalization are part of the API-level workload; a refused late-locked finalization of an honest reply must leave nothing newly reserved.",
   "design_ref": "DESIGN.md section 5 C01",
   "note": "Trusts grin_core::libtx::tx_fee as the network minimum and the harness's own spendability predicate; workload B covers tens (quick) to hundreds (thorough) of API calls, the bulk of the input space is covered at the selection-function boundary.",
   "technique": "runtime monitoring: conservation/eligibility invariant oracle over real selection executions (exhaustive small scope + sampled), API-level replay with LMDB state diff",
  },
  "C08": {
-  "text": "Runtime monitoring with a differential oracle: every generated well-typed slate is pushed through all encoders/decoders of the real code and the decoded native values are compared field by field (original vs. decoded, path vs. path, and back at the SlateV4 level), several 10^4 slates x ~10 paths per run, with per-field hit counters proving that every optional field and boundary value was exercised.",
+  "text": "Runtime monitoring with a differential oracle: every generated well-typed slate is pushed through all encoders/decoders of the real code and the decoded native values are compared field by field (original vs. decoded, path vs. path, and back at the SlateV4 level), several 10^4 slates x ~10 paths per run, with per-field hit counters proving that every optional field and boundary value was exercised. Stored-record codecs include encrypted Slatepack structures with 0-3 recipients kept in the encrypted metadata and an optional sender.",
   "design_ref": "DESIGN.md section 5 C08",
   "note": "Trusts the harness's field-by-field equality (kernel of the embedded transaction excluded by design) and its notion of well-typed (documented bounds in the evidence assumptions).",
-  "technique": "runtime monitoring: differential round-trip oracle over all codec paths on structurally generated slates/records",
+  "technique": "runtime monitoring: field-by-field equality oracle over real encode/decode executions of structurally generated slates through every encoding path; AddressSanitizer pass (thorough)",
  },
  "C10": {
-  "text": "Runtime monitoring of the real packer/armor/age code: recipient and non-recipient decryption, cleartext search over every encoded form, and exhaustive-per-position (first messages) plus sampled edit campaigns with an independent checksum recomputation to recognise inherent 32-bit collisions; also through the owner API on real wallets.",
+  "text": "Runtime monitoring of the real packer/armor/age code: recipient and non-recipient decryption, cleartext search over every encoded form, and exhaustive-per-position (first messages) plus sampled edit campaigns with an independent checksum recomputation to recognise inherent 32-bit collisions; also through the owner API on real wallets. Through the owner API the recipient's derivation index is also given among several others in random order.",
   "design_ref": "DESIGN.md section 5 C10",
   "note": "Confidentiality is judged by searching known encodings of the slate and sender (raw, hex, bech32, JSON) in every form; a leak in another encoding would be missed. Wrong keys are sampled.",
-  "technique": "runtime monitoring: decrypt/tamper/cleartext-search oracle over real slatepack encode/decode executions",
+  "technique": "runtime monitoring: decrypt/refuse/cleartext/tamper oracles over real slatepack executions with exhaustive single edits of the first message per shard; AddressSanitizer pass (thorough)",
  },
  "C09": {
   "text": "Runtime monitoring of every decoder entry point under hostile input: unwinding is caught and attributed to its panic site, allocation and CPU are metered per input, aborts are attributed through a per-input journal, and the wallet's raw LMDB content and files are diffed after rejected inputs on wallet-facing entries. Several 10^5 (quick) to 10^6 (thorough) inputs per run, exhaustive over single positions of the first valid encodings.",
   "design_ref": "DESIGN.md section 5 C09",
-  "note": "No coverage-guided fuzzer decides the verdict (technique family); inputs are structure-aware. ASan/Miri passes are supplementary (thorough tier).",
-  "technique": "runtime monitoring: panic/allocation/CPU/state-diff monitors around real decoder executions on structure-aware hostile inputs",
+  "note": "No coverage-guided fuzzer decides the verdict (technique family); inputs are structure-aware. Thorough tier: the quick workload again under AddressSanitizer (Rust + C), a deterministic 3 % sample under valgrind memcheck (memory errors judged everywhere, uses of uninitialised values only in wallet code: the secp256k1 binding's MaybeUninit out-parameters are reported inside the C library for malformed keys/proofs and are not judged), and the pure-Rust decoder subset under Miri (/verif/miri).",
+  "technique": "runtime monitoring: panic/allocation/CPU/state-diff monitors around real decoder executions on structure-aware hostile inputs; AddressSanitizer, valgrind memcheck and Miri passes (thorough)",
  },
  "C03": {
-  "text": "Runtime monitoring of the real wallets under generated interleaved histories (several thousand steps per quick run, tens of thousands thorough) with an exclusivity/idempotence monitor evaluated after every step.",
+  "text": "Runtime monitoring of the real wallets under generated interleaved histories (several thousand steps per quick run, tens of thousands thorough) with an exclusivity/idempotence monitor evaluated after every step. Repeats include the reserve step delivered again after the transaction was cancelled.",
   "design_ref": "DESIGN.md section 5 C03",
   "note": "Histories are sampled; the monitor reads wallet state through the backend iterators after each step.",
   "technique": "runtime monitoring: invariant monitor (reservation exclusivity, idempotent repeats) over generated interleaved histories on real LMDB wallets and chain",
  },
  "C04": {
-  "text": "Runtime monitoring: at every validated refresh in generated histories the wallet's books are compared with the real chain's UTXO set, heights and coinbase flags (membership, balance partition for four confirmation settings, ledger equality, cross-account frame condition).",
+  "text": "Runtime monitoring: at every validated refresh in generated histories the wallet's books are compared with the real chain's UTXO set, heights and coinbase flags (membership, balance partition for four confirmation settings, ledger equality, cross-account frame condition). Once per history the chain grows by more than 50 blocks while transactions are pending.",
   "design_ref": "DESIGN.md section 5 C04",
   "note": "Chain truth is read from grin_chain directly; histories that the statement excludes (cancel after broadcast, reorganisation) are not generated.",
   "technique": "runtime monitoring: chain-truth oracle evaluated at every successful refresh over generated histories",
  },
  "C15": {
-  "text": "Runtime monitoring: a path -> output map maintained over every output record ever observed in generated histories (with restarts, cancels after broadcast, node outages), plus restore-from-seed runs checking that the next derivation index lies beyond every path on chain.",
+  "text": "Runtime monitoring: a path -> output map maintained over every output record ever observed in generated histories (with restarts, cancels after broadcast, node outages), plus restore-from-seed runs checking that the next derivation index lies beyond every path on chain. The histories include coinbase requests that name the key of an existing coinbase record (a never-mined candidate, or an already confirmed one).",
   "design_ref": "DESIGN.md section 5 C15",
   "note": "Crash points are covered by the C06 runs, which feed the same monitor (see C06).",
   "technique": "runtime monitoring: key-path uniqueness monitor over generated histories and restores",
  },
  "C06": {
-  "text": "Fault enumeration by runtime injection: every persistence-call boundary of every operation of five scenarios is hit with a process kill and with two failing-write errnos (plus torn stored-tx writes), and a recovery oracle is evaluated on the reopened directory. The interposer observes the calls below the process, so writes issued by the statically linked LMDB C code are included and a new write added by a change is enumerated without a new hook.",
+  "text": "Fault enumeration by runtime injection: every persistence-call boundary of every operation of five scenarios is hit with a process kill and with two failing-write errnos (plus torn stored-tx writes), and a recovery oracle is evaluated on the reopened directory. The interposer observes the calls below the process, so writes issued by the statically linked LMDB C code are included and a new write added by a change is enumerated without a new hook. A partially written stored-transaction file answered with 'no stored transaction' counts as silent loss.",
   "design_ref": "DESIGN.md section 5 C06, section 4.2",
   "note": "Trusts the interposer to see every persistence call (verified against the observed sequences recorded in the evidence) and the process-death crash model.",
   "technique": "runtime monitoring with fault injection: syscall-level crash/failing-write enumeration + recovery invariant oracle",
  },
  "C12": {
-  "text": "Runtime monitoring: nonce/excess freshness and cleartext-secret monitors ride on generated multi-slate histories of real wallets (raw on-disk bytes and every emitted message searched after every 40 steps); seed-file password semantics are checked against an independent decryptor; password change and phrase recovery are interrupted at every persistence call by the syscall interposer.",
+  "text": "Runtime monitoring: nonce/excess freshness and cleartext-secret monitors ride on generated multi-slate histories of real wallets (raw on-disk bytes and every emitted message searched after every 40 steps); seed-file password semantics are checked against an independent decryptor; password change and phrase recovery are interrupted at every persistence call by the syscall interposer. M-secrets also has a public-data clause: no emitted slate's offset (or the change of the offset made by the wallet) may equal plus or minus a participant's blinding key, checked as (+/-)x*G == public_blind_excess; the workload repeats protocol steps and sends an invoice that reuses the slate id of one of the victim's pending sends.",
   "design_ref": "DESIGN.md section 5 C12",
   "note": "Known open finding: the stored context keeps initial_sec_key/initial_sec_nonce unmasked (see known_findings.json).",
   "technique": "runtime monitoring: byte-search and nonce-uniqueness monitors over histories + fault-injected seed-file operations with an independent decryptor",
  },
  "C17": {
-  "text": "Runtime monitoring of the real TTL checks: a directed sweep of cutoffs around the wallet's observed height at every protocol step and role, and of refreshes around the cutoff with other pending transactions present, judged by an expiry oracle stated as implications.",
+  "text": "Runtime monitoring of the real TTL checks: a directed sweep of cutoffs around the wallet's observed height at every protocol step and role, and of refreshes around the cutoff with other pending transactions present, judged by an expiry oracle stated as implications. The acting wallet's own ttl_blocks wish for its reply is varied (it must not matter for the incoming slate's expiry).",
   "design_ref": "DESIGN.md section 5 C17",
   "note": "Directed boundary sweep (hundreds of cases), not random histories; other pending transactions are of the same wallet and role.",
   "technique": "runtime monitoring: boundary sweep with an expiry oracle over real receive/finalize/invoice/refresh executions",
  },
  "C05": {
-  "text": "Runtime monitoring with a before/after oracle on real wallets: every pending kind at every stage is cancelled in the presence of other reservations and the complete observable state is compared with the snapshot taken just before the transaction existed.",
+  "text": "Runtime monitoring with a before/after oracle on real wallets: every pending kind at every stage is cancelled in the presence of other reservations and the complete observable state is compared with the snapshot taken just before the transaction existed. Every third case places pending entries with the same per-account log ids into the wallet's other account (the compared view covers every account); refusal cases include a transaction that is already mined but not yet seen by the wallet (with and without change output).",
   "design_ref": "DESIGN.md section 5 C05",
   "note": "Directed enumeration of kinds/stages/addressing (hundreds of cases), parameters drawn per case.",
   "technique": "runtime monitoring: exact-rollback oracle (state snapshot before create vs after cancel) over enumerated pending-transaction kinds",
  },
  "C02": {
-  "text": "Runtime monitoring with a mutation campaign on the reply slate: every finalization that succeeds is judged by an independent exactness oracle (validation, recomputed inputs/change from the seed, agreed fee, stored-transaction bytes, acceptance by a real chain), every refusal by a frame condition and cancellability.",
+  "text": "Runtime monitoring with a mutation campaign on the reply slate: every finalization that succeeds is judged by an independent exactness oracle (validation, recomputed inputs/change from the seed, agreed fee, stored-transaction bytes, acceptance by a real chain), every refusal by a frame condition and cancellability. Per shard also: cancel_tx followed by finalize_tx of the honest reply (with and without change output) must be refused or leave every input reserved. Thorough tier repeats the quick workload under AddressSanitizer (Rust and C code).",
   "design_ref": "DESIGN.md section 5 C02",
   "note": "Alterations are a fixed catalogue plus attacker-level re-signed replies; the honest counterparty's outputs are taken from its real reply.",
-  "technique": "runtime monitoring: 'success implies exact' oracle over finalizations of systematically altered replies, with a real chain as acceptance oracle",
+  "technique": "runtime monitoring: 'success implies exact' oracle over finalizations of systematically altered replies, with a real chain as acceptance oracle; AddressSanitizer pass (thorough)",
  },
  "C11": {
-  "text": "Runtime monitoring: proof-carrying sends with altered replies and altered exported proofs; acceptance is judged by an independent ed25519 verification of the recipient signature over the amount fixed at initiation and the excess of the returned transaction, and by kernel presence on the real chain.",
+  "text": "Runtime monitoring: proof-carrying sends with altered replies and altered exported proofs; acceptance is judged by an independent ed25519 verification of the recipient signature over the amount fixed at initiation and the excess of the returned transaction, and by kernel presence on the real chain. Once per shard the block holding a verified proof's kernel is replaced by a longer fork (the proof must stop verifying), and a proof-carrying send is made from a named source account while another account is active.",
   "design_ref": "DESIGN.md section 5 C11",
   "note": "Independent verification uses ed25519-dalek directly; the proof message layout (amount big-endian || excess || sender key) is taken from the property's wording and the wallet's documented format.",
   "technique": "runtime monitoring: soundness oracle over altered replies and altered exported proofs on real wallets and chain",
@@ -89,34 +89,34 @@ META = {
   "text": "Runtime monitoring with a frame-condition oracle on the wallet's raw database content, files and spendable balance around every foreign call of generated hostile and honest sequences (direct calls and the JSON-RPC handler), several thousand calls per quick run.",
   "design_ref": "DESIGN.md section 5 C07",
   "note": "The oracle parses the stored JSON records; counters (log id, derivation index) are exempt.",
-  "technique": "runtime monitoring: frame-condition monitor (full key/value dump diff) over generated foreign-API call sequences",
+  "technique": "runtime monitoring: frame-condition oracle (complete LMDB dump diff) over sequences of honest and hostile foreign calls; AddressSanitizer pass (thorough)",
  },
  "C13": {
-  "text": "Runtime monitoring of the real owner listener handler with a client-side session model: every request is classified by the harness as authenticated-under-the-current-key or not, and an 'effect or data implies authenticated' oracle inspects the wallet database, files, lifecycle state and the reply; replies to authenticated requests must decrypt under the same key.",
+  "text": "Runtime monitoring of the real owner listener handler with a client-side session model: every request is classified by the harness as authenticated-under-the-current-key or not, and an 'effect or data implies authenticated' oracle inspects the wallet database, files, lifecycle state and the reply; replies to authenticated requests must decrypt under the same key. Unauthenticated classes include plaintext batch arrays that hold the key-exchange call next to other calls.",
   "design_ref": "DESIGN.md section 5 C13",
   "note": "The handler is driven in-process (no socket); AES-GCM envelopes are built by the harness with ring, independently of the wallet's EncryptedRequest type.",
   "technique": "runtime monitoring: session-model oracle ('effect implies authenticated') over generated request histories on the real handler",
  },
  "C14": {
-  "text": "Runtime monitoring of the real Owner API on a masked LMDB wallet: a token-kind sweep over every method with a raw-database frame condition, an invalid-mask requirement derived statically (key-using methods) and dynamically (methods observed to write with the right token), a masked-vs-unmasked differential run, and closed-wallet probes.",
+  "text": "Runtime monitoring of the real Owner API on a masked LMDB wallet: a token-kind sweep over every method with a raw-database frame condition, an invalid-mask requirement derived statically (key-using methods) and dynamically (methods observed to write with the right token), a masked-vs-unmasked differential run, and closed-wallet probes. The masked wallets' tokens are obtained through api::Owner::open_wallet; two wallets' tokens must differ and a previous session's token must not work after reopening.",
   "design_ref": "DESIGN.md section 5 C14",
   "note": "Wrong tokens are sampled (absent, random, one bit off, another wallet's); create_mwixnet_req is not driven.",
   "technique": "runtime monitoring: token sweep with database frame condition + masked/unmasked differential execution",
  },
  "C18": {
-  "text": "Runtime monitoring on a real grin_chain::Chain that the harness reorganises block by block: after every reorganisation the recipient's records, balance figures and coin selection are judged against kernel and UTXO membership read from the chain.",
+  "text": "Runtime monitoring on a real grin_chain::Chain that the harness reorganises block by block: after every reorganisation the recipient's records, balance figures and coin selection are judged against kernel and UTXO membership read from the chain. In every other scenario the recipient wallet has a second account whose log entries carry the same per-account ids as the payment.",
   "design_ref": "DESIGN.md section 5 C18",
   "note": "Fork blocks carry neutral coinbases; flip-flop depth is bounded to 0-3 blocks below the receiving block.",
   "technique": "runtime monitoring: chain-truth oracle over generated reorganisation scenarios on a real chain",
  },
  "C20": {
-  "text": "Runtime monitoring with a cooperative scheduler: the cfg-guarded hook in wallet_lock! calls back before every lock acquisition of a refresh or scan; the harness runs other complete operations at that point and compares the outcome of every such schedule with the outcomes of all serial orders from the same snapshot.",
+  "text": "Runtime monitoring in three parts. (1) Cooperative scheduling: the cfg-guarded hook in wallet_lock! calls back before every lock acquisition of a refresh or scan; the harness runs other complete operations (reserve, finalize, cancel, receive, initiate, finalize+post+mine, node events, a caller's nested refresh) at that point and compares the outcome of every such schedule - enumerated exhaustively for one concurrent operation and for chosen (quick) or all (thorough) pairs - with the outcomes of all serial orders from the same snapshot. (2) Real threads: two updater threads (refresh / refresh-all / scan loops with short sleeps at the lock announcements), a miner and four workers driving complete flows through api::Owner/Foreign on the same two wallets, judged at quiescent points by per-flight postconditions that hold in every serial order (each flight has its own slate id), by the reservation invariants, the books and a progress/CPU deadlock watchdog. (3) Thorough only: the real-thread job under ThreadSanitizer.",
   "design_ref": "DESIGN.md section 5 C20",
-  "note": "Interleavings are enumerated exhaustively for 1 concurrent operation and for chosen (quick) or all (thorough) pairs; three concurrent operations are not enumerated.",
-  "technique": "runtime monitoring: hook-driven schedule enumeration with a serializability oracle over recorded outcomes",
+  "note": "Enumeration is exhaustive for 1 concurrent operation and for chosen (quick) or all (thorough) pairs; three concurrent operations are not enumerated. Real-thread schedules are not replayable: the witness is the operation log. ThreadSanitizer reports are judged only when one of the two racing accesses is in a grin_wallet_* crate (LMDB's lock-free reader table and the harness node's grin_store are reported by TSan and counted, not judged).",
+  "technique": "runtime monitoring: hook-driven schedule enumeration with a serializability oracle; real-thread stress with per-flight postcondition, invariant and deadlock monitors; ThreadSanitizer pass (thorough)",
  },
  "C16": {
-  "text": "Runtime monitoring: restores and repairs are run on chains produced by generated wallet activity, with node paging varied, and judged against chain truth read directly from grin_chain (UTXO membership, value, height, coinbase flag, maturity, account, balances) plus idempotence of a second scan.",
+  "text": "Runtime monitoring: restores and repairs are run on chains produced by generated wallet activity, with node paging varied, and judged against chain truth read directly from grin_chain (UTXO membership, value, height, coinbase flag, maturity, account, balances) plus idempotence of a second scan. Repairs are also judged after a broadcast transaction was cancelled by its sender and then mined, and after the top blocks were replaced by a longer fork (every account compared).",
   "design_ref": "DESIGN.md section 5 C16",
   "note": "Chain truth covers every commitment the harness ever observed for the seed during the history.",
   "technique": "runtime monitoring: chain-truth oracle over restore/repair scans on generated chain histories",
